@@ -520,6 +520,9 @@ coap_free_resource(coap_resource_t *resource) {
     if (resource->context->observe_deleted)
       resource->context->observe_deleted(obs->session, obs,
                                          resource->context->observe_user_data);
+    /* Stop retransmitting notifications that are still queued for this observer */
+    coap_cancel_all_messages(resource->context, obs->session,
+                             &obs->pdu->actual_token);
     coap_session_release_lkd(obs->session);
     coap_delete_pdu(obs->pdu);
     coap_delete_cache_key(obs->cache_key);
@@ -1025,6 +1028,8 @@ coap_delete_observer_internal(coap_resource_t *resource, coap_session_t *session
 
   if (resource->subscribers) {
     LL_DELETE(resource->subscribers, s);
+    /* Stop retransmitting notifications that are still queued for this observer */
+    coap_cancel_all_messages(session->context, session, &s->pdu->actual_token);
     coap_session_release_lkd(session);
     coap_delete_pdu(s->pdu);
     coap_delete_cache_key(s->cache_key);
